@@ -174,6 +174,14 @@ bool StepScript(InterpreterEnv& env)
     auto& is_p2sh = env.is_p2sh;
     auto& serror = env.serror;
 
+    if (is_p2sh || env.successor_script.size()) {
+        // each script of a spend (scriptSig, scriptPubKey, redeem script) is evaluated in its own frame:
+        // its conditionals must be balanced at its end, and the alt stack is not carried into the next script
+        if (!vfExec.empty())
+            return set_error(serror, SCRIPT_ERR_UNBALANCED_CONDITIONAL);
+        env.altstack.clear();
+    }
+
     if (is_p2sh) {
         if (stack.empty())
             return set_error(serror, SCRIPT_ERR_EVAL_FALSE);
